@@ -141,11 +141,12 @@ void do_send(int idx)
 {
 	Sc &s = *G;
 	Msg &m = s.msgs[idx];
-	m.payload.resize(s.msg_len);
+	unsigned used = s.msg_len > 16 ? 16 : s.msg_len; // big messages: the leading bytes only (one shadow cell per byte)
+	m.payload.resize(used);
 	uint8_t *p = amc_storage() + m.off;
-	for (unsigned i = 0; i < s.msg_len; i++)
+	for (unsigned i = 0; i < used; i++)
 		p[i] = m.payload[i] = (uint8_t)(0x10 * (m.sender + 1) + m.seq * 3 + i * 7 + 1);
-	vrt_plain_write(p, s.msg_len);
+	vrt_plain_write(p, used);
 	vrt_point(); // between filling the buffer and sending it
 	m.send_started = true;
 	amc_send(m.off);
@@ -183,8 +184,8 @@ int do_receive(bool release)
 		return -1;
 	}
 	const uint8_t *p = amc_storage() + off;
-	vrt_plain_read(p, s.msg_len);
-	if (memcmp(p, m.payload.data(), s.msg_len) != 0) {
+	vrt_plain_read(p, m.payload.size());
+	if (memcmp(p, m.payload.data(), m.payload.size()) != 0) {
 		api_fail("message of sender %d seq %d does not have the contents written before send", m.sender, m.seq);
 		return -1;
 	}
@@ -295,6 +296,19 @@ void h_run(Ctx &c)
 		s.roles = (int)t.choose(2);
 	s.msg_len = (unsigned)c.param("msg_len", 4);
 	unsigned precycle = fixed ? (unsigned)c.param("precycle", 0) : t.choose(2 * s.depth + 1);
+	if (!fixed && c.feat(2)) {
+		// now and then: a queue that has already carried more than 2^8 messages (8-bit index arithmetic has wrapped),
+		// and / or a geometry whose later slots lie beyond 64 KiB (msg_len is a uint16_t)
+		if (t.weighted({ 7, 1 }) == 1) {
+			precycle = 240 + t.choose(40);
+			c.cls("long-life (>= 240 messages before the concurrent phase)");
+		}
+		if (t.weighted({ 11, 1 }) == 1) {
+			s.msg_len = 4096;
+			s.depth = 17 + t.choose(16);
+			c.cls("slots beyond 64 KiB");
+		}
+	}
 	int budget = (int)c.param("preempt", -1);
 	int every = (int)c.param("every_access", fixed ? 0 : -1);
 	if (every < 0)
